@@ -273,6 +273,7 @@ class Kind:
         self.variants = variants or []
         self.bit_seeds = bit_seeds  # rng -> structured 'random' right-length bit string
         self.extra_check = extra_check  # object -> None | str   (e.g. unrelated attributes at default)
+        self.consistency = None  # (ctx, inp, decoded object, bits) -> None: the other entry points / views of the same codec must agree
 
 
 # ------------------------------------------------------------------------------------------------
@@ -751,6 +752,55 @@ def mk_pi_kind():
 RATE_TYPES = ["unconfirmed", "confirmed", "unconfirmedLast", "confirmedLast"]
 
 
+def rate_consistency(cname, cls, T, tname, members):
+    """the other entry points of the rate PDU codecs (coverage round: none of them was executed by any generated input):
+    from_bits — the untyped entry point of BitsInterface, the one Burst.extract_data calls — must be the typed decoder with the Undefined
+    type and keep all bits as data; convert() of that untyped block to the block's type (what a receiver does once the header told it
+    the type) must be the typed decoder; is_confirmed / is_last_block / resolve / get_data_type must classify the block as the type it
+    was decoded with."""
+    conf = tname in ("confirmed", "confirmedLast")
+    last = tname in ("unconfirmedLast", "confirmedLast")
+    dt_name = {"12": "Rate12Data", "34": "Rate34Data", "1": "Rate1Data"}[cname]
+
+    def chk(ctx, inp, o, bits):
+        bits = bitarray(bits)
+        u, err = call(cls.from_bits, bitarray(bits))
+        t, err2 = call(cls.from_bits_typed, bitarray(bits), T.Undefined)
+        if err or err2 or attrs(u) != attrs(t):
+            ctx.fail("untyped-entry-differs", inp, f"rate{cname}: from_bits(b) is not from_bits_typed(b, Undefined)",
+                     expected=err2 or attrs(t), actual=err or attrs(u))
+            return
+        ub, err = call(u.as_bits)
+        if err or ub != bits or bytes(u.data) != bits.tobytes():
+            ctx.fail("untyped-entry-differs", inp, f"rate{cname}: the untyped decode does not keep the received bits as data / does not serialise to them",
+                     expected=sbits(bits), actual=err or sbits(ub))
+        dt, err = call(cls.get_data_type)
+        if err or getattr(dt, "name", None) != dt_name:
+            ctx.fail("rate-classification", inp, f"rate{cname}: get_data_type() is {err or dt}", expected=dt_name, actual=err or str(dt))
+        want_c, want_l = (conf, last) if tname != "undefined" else (False, False)
+        c, err = call(o.is_confirmed)
+        l_, err2 = call(o.is_last_block)
+        if err or err2 or (bool(c), bool(l_)) != (want_c, want_l):
+            ctx.fail("rate-classification", inp, f"rate{cname}/{tname}: is_confirmed / is_last_block = {err or c} / {err2 or l_}",
+                     expected=[want_c, want_l], actual=[err or c, err2 or l_])
+        r, err = call(T.resolve, want_c, want_l)
+        if err or r is not o.packet_type:
+            ctx.fail("rate-classification", inp, f"rate{cname}/{tname}: resolve(confirmed={want_c}, last={want_l}) is {err or r}, the block is {o.packet_type}",
+                     expected=str(o.packet_type), actual=err or str(r))
+        if tname != "undefined":
+            v, err = call(u.convert, members[tname])
+            if err or attrs(v) != attrs(o):
+                ctx.fail("convert-differs", inp, f"rate{cname}/{tname}: from_bits(b).convert(type) is not from_bits_typed(b, type)",
+                         expected=attrs(o), actual=err or attrs(v))
+            else:
+                vb, err = call(v.as_bits)
+                if err or vb != bits:
+                    ctx.fail("convert-differs", inp, f"rate{cname}/{tname}: from_bits(b).convert(type).as_bits() != b", expected=sbits(bits), actual=err or sbits(vb))
+        ctx.count(f"rate{cname}:other-entry-points")
+
+    return chk
+
+
 def mk_rate_kinds():
     from okdmr.dmrlib.etsi.layer2.pdu.rate12_data import Rate12Data, Rate12DataTypes
     from okdmr.dmrlib.etsi.layer2.pdu.rate34_data import Rate34Data, Rate34DataTypes
@@ -768,6 +818,7 @@ def mk_rate_kinds():
             k.bit_seeds = lambda rng, total=total: (
                 (lambda b: (b.__setitem__(slice(7, 16), 0), b)[1] if rng.random() < 0.15 else b)(int2ba(rng.getrandbits(8 * total), length=8 * total)))
             k.n_bits = (250, 6000)
+            k.consistency = rate_consistency(cname, cls, T, tname, members)
             if tname != "undefined":
                 dl = member.value
                 fields = [("data", BYTES(dl))]
@@ -1047,6 +1098,8 @@ def check_fields(ctx, kind, variant, vals, record=True, opts=None):
             if e2 or attrs(q2) != qa:
                 ctx.fail("bytes-path-differs", inp, f"{kind.name}/{variant.name}: from_bytes(as_bytes(p)) differs from from_bits(as_bits(p)){how}",
                          expected={k: qa.get(k) for k in (diff_attrs(qa, attrs(q2)) if not e2 else [])}, actual=e2 or {k: attrs(q2).get(k) for k in diff_attrs(qa, attrs(q2))})
+    if kind.consistency is not None and b2 == bits:
+        kind.consistency(ctx, inp, q, bits)
     return (enc_line or kind.enc_line(p, mv), (q, err or b2), p, bits)
 
 
@@ -1092,6 +1145,9 @@ def check_bits(ctx, kind, b):
         e2, err = call(o2.as_bits)
         if err or e2 != e1:
             ctx.fail("not-a-fixed-point", inp, f"{kind.name}: encode-decode-encode changes the bits", expected=sbits(e1), actual=err or sbits(e2))
+    if kind.consistency is not None and len(e1) == len(b):
+        # the consistency of the entry points is stated for the serialisation of the decoded object (a fixed point of the codec)
+        kind.consistency(ctx, inp, o2 if o2 is not None else o, e1)
     out = f"ok {kind.fmt(o)} {sbits(e1)}"
     if kind.extra_check:
         x = kind.extra_check(o)
@@ -1174,6 +1230,11 @@ def check_fsn_value(ctx, v):
     out = err or f"M {o.value}"
     if err or o.value != v or o.as_bits() != int2ba(v, length=4):
         ctx.fail("element-fsn", inp, f"FragmentSequenceNumber {v} does not survive from_bits/as_bits", expected=f"M {v}", actual=out)
+    elif not err:
+        # the reading of the field (ETSI TS 102 361-1 9.3.36: 0000 single unconfirmed fragment, 1xxx last / single confirmed fragment)
+        il, e2 = call(o.is_last)
+        if e2 or bool(il) != (v == 0 or v >= 8):
+            ctx.fail("element-fsn", inp, f"FragmentSequenceNumber({v}).is_last() = {e2 or il}", expected=(v == 0 or v >= 8), actual=e2 or il)
     return out
 
 
@@ -1192,6 +1253,132 @@ def check_elements(ctx):
         pairs.append((f"elem FragmentSequenceNumber {v}", check_fsn_value(ctx, v)))
     if not ctx.search_only and ctx.driver_ok:
         ctx.correspond("elements", pairs)
+
+
+def _utf8(s_):
+    out = bytearray()
+    for ch in s_:
+        c = ord(ch)
+        if c < 0x80:
+            out.append(c)
+        elif c < 0x800:
+            out += bytes([0xC0 | c >> 6, 0x80 | c & 63])
+        elif c < 0x10000:
+            out += bytes([0xE0 | c >> 12, 0x80 | c >> 6 & 63, 0x80 | c & 63])
+        else:
+            out += bytes([0xF0 | c >> 18, 0x80 | c >> 12 & 63, 0x80 | c >> 6 & 63, 0x80 | c & 63])
+    return bytes(out)
+
+
+def _utf16le(s_):
+    out = bytearray()
+    for ch in s_:
+        c = ord(ch)
+        if c >= 0x10000:
+            c -= 0x10000
+            for u in (0xD800 | c >> 10, 0xDC00 | c & 0x3FF):
+                out += bytes([u & 255, u >> 8])
+        else:
+            out += bytes([c & 255, c >> 8])
+    return bytes(out)
+
+
+TA_CODECS = {0b00: ("SevenBitCharacters", 0x7F, lambda s_: bytes(ord(c) for c in s_)), 0b01: ("ISOEightBitCharacters", 0xFF, lambda s_: bytes(ord(c) for c in s_)),
+             0b10: ("UnicodeUTF8", 0x10FFFF, _utf8), 0b11: ("UnicodeUTF16LE", 0x10FFFF, _utf16le)}
+
+
+def check_talker_alias_text(ctx):
+    """the text side of the Talker Alias Data Format element (ETSI TS 102 361-2 7.2.18; coverage round: encode / decode were never executed):
+    for each of the four formats, strings over the format's repertoire (boundary code points, the special tokens of the dictionary, random)
+    encode to the octets an independent encoder written here gives, and decode back to the string"""
+    from okdmr.dmrlib.etsi.layer3.elements.talker_alias_data_format import TalkerAliasDataFormat as T
+
+    rng = ctx.rng
+    for v, (name, top, ref) in TA_CODECS.items():
+        m = T(v)
+        edges = [c for c in (0, 1, 0x0A, 0x0D, 0x20, 0x41, 0x7E, 0x7F, 0x80, 0xA0, 0xFF, 0x100, 0x7FF, 0x800, 0xD7FF, 0xE000, 0xFEFF, 0xFFFD, 0xFFFE, 0xFFFF,
+                                0x10000, 0x10FFFF) if c <= top]
+        strings = [""] + [chr(c) for c in edges] + ["".join(chr(c) for c in edges)] + ["A" * n for n in (1, 6, 7, 31)]
+        for _ in range(ctx.budget(40, 400)):
+            n = rng.randrange(1, 32)
+            strings.append("".join(chr(c) for c in (rng.choice(edges) if rng.random() < 0.3 else rng.randrange(top + 1) for _ in range(n))
+                                   if not 0xD800 <= c <= 0xDFFF))
+        for s_ in strings:
+            inp = {"kind": "talker-alias-text", "format": v, "text": [ord(c) for c in s_]}
+            ctx.case(("ta-text", v, s_), nontrivial=bool(s_))
+            ctx.count(f"talker-alias-text:{name}")
+            raw, err = call(m.encode, s_)
+            want = ref(s_)
+            if err or raw != want:
+                ctx.fail("talker-alias-text", inp, f"TalkerAliasDataFormat.{name}.encode gives {err or bytes(raw).hex()}", expected=want.hex(), actual=err or bytes(raw).hex())
+                continue
+            back, err = call(m.decode, raw)
+            if err or back != s_:
+                ctx.fail("talker-alias-text", inp, f"TalkerAliasDataFormat.{name}.decode(encode(s)) is {err or [ord(c) for c in back]}",
+                         expected=[ord(c) for c in s_], actual=err or [ord(c) for c in back])
+
+
+def implemented_members(ks, rng):
+    """{enum class: member values some variant of some kind passes to a constructor} (the E specs of the fields and a sample of kwargs)"""
+    used = {}
+    for k in ks.values():
+        for var in k.variants:
+            if var.cls is None or var.kwargs is None:
+                continue
+            for n, sp in var.fields:
+                if isinstance(sp, E):
+                    used.setdefault(sp.cls, set()).update(sp.vals)
+            for j in range(6):
+                kw, err = call(var.kwargs, fill(var, rng, "random"))
+                if not err:
+                    for n, x in kw.items():
+                        if isinstance(x, enum.Enum):
+                            used.setdefault(type(x), set()).add(x.value)
+    return used
+
+
+def unimplemented_selector_cases(ctx, k, rng, used):
+    """encode side of 'undefined / not implemented' (coverage round: FullLinkControl.as_bits' refusal was never executed): the PDU class is built
+    with every DEFINED member of its opcode / format enumerations that NO variant of the codec implements (e.g. FLCO Terminator Data Link
+    Control), the other arguments being those of an implemented variant.  Constructing or serialising must raise one of the documented errors;
+    if bits come out instead they must be a fixed point of decode-then-encode (then the opcode IS implemented)."""
+    rows = []
+    for var in k.variants:
+        if var.cls is None or var.kwargs is None:
+            continue
+        kw, err = call(var.kwargs, fill(var, rng, "random"))
+        if not err:
+            rows.append((var, kw))
+    documented = set(k.errors) | {"ValueError", "KeyError", "NotImplementedError"}
+    for var, kw in rows:
+        for n, x in sorted(kw.items()):
+            if not isinstance(x, enum.Enum):
+                continue
+            for m in type(x):
+                if m.value in used.get(type(x), ()):
+                    continue
+                inp = {"kind": k.name, "mode": "unimplemented", "variant": var.name, "argument": n, "member": m.name}
+                ctx.case(("unimplemented", k.name, var.name, n, m.name))
+                p, err = call(lambda: var.cls(**dict(kw, **{n: m})))
+                bits = None
+                if not err:
+                    bits, err = call(p.as_bits)
+                if err:
+                    ctx.count(f"unimplemented:{k.name}.{n}={m.name}:{err[4:]}")
+                    if err[4:] not in documented:
+                        ctx.fail("undocumented-error", inp, f"{k.name}: serialising a PDU with the defined but not implemented {n}={m.name} raised {err}, "
+                                 f"not one of {sorted(documented)}", expected=sorted(documented), actual=err)
+                    continue
+                ctx.count(f"unimplemented:{k.name}.{n}={m.name}:bits")
+                o, err = call(k.from_bits, bitarray(bits))
+                if err:
+                    if err[4:] not in documented:
+                        ctx.fail("undocumented-error", inp, f"{k.name}: decoding the serialisation for {n}={m.name} raised {err}", expected=sorted(documented), actual=err)
+                    continue
+                e1, err = call(o.as_bits)
+                if err or e1 != bits:
+                    ctx.fail("not-a-fixed-point", inp, f"{k.name}: a PDU with {n}={m.name} serialises to bits that are not a fixed point of decode-then-encode",
+                             expected=sbits(bits), actual=err or sbits(e1))
 
 
 def check_gps_floats(ctx):
@@ -3911,8 +4098,12 @@ def run(ctx):
         "ambient conditions: thread interleavings are out of scope (the property does not speak of concurrency)",
     ]
     check_elements(ctx)
+    check_talker_alias_text(ctx)
     check_gps_floats(ctx)
     ks = {k.name: k for k in kinds()}
+    used_members = implemented_members(ks, ctx.rng)
+    for k in ks.values():
+        unimplemented_selector_cases(ctx, k, ctx.rng, used_members)
     sig_done = set()
     for k in ks.values():
         cls = next((v.cls for v in k.variants if v.cls is not None), None)
@@ -4244,6 +4435,23 @@ def replay(obj):
         print("model         :", model_says(PROP, line))
     elif inp.get("kind") == "alias":
         replay_alias(r, inp, {k.name: k for k in kinds()})
+    elif inp.get("kind") == "talker-alias-text":
+        from okdmr.dmrlib.etsi.layer3.elements.talker_alias_data_format import TalkerAliasDataFormat as T
+
+        name, _top, ref = TA_CODECS[inp["format"]]
+        s_ = "".join(chr(c) for c in inp["text"])
+        raw, err = call(T(inp["format"]).encode, s_)
+        back, err2 = (None, None) if err else call(T(inp["format"]).decode, raw)
+        print(f"implementation: {name}.encode -> {err or bytes(raw).hex()}; decode -> {err2 or (back is not None and [ord(c) for c in back])}")
+        print(f"expected      : {ref(s_).hex()}; {inp['text']}")
+        if err or err2 or raw != ref(s_) or back != s_:
+            r.fail("talker-alias-text", inp, "text codec of the talker alias format differs", ref(s_).hex(), err or bytes(raw).hex())
+    elif inp.get("mode") == "unimplemented":
+        import random as _random
+
+        ks = {k.name: k for k in kinds()}
+        if inp.get("kind") in ks:
+            unimplemented_selector_cases(r, ks[inp["kind"]], _random.Random(0), implemented_members(ks, _random.Random(1)))
     elif inp.get("mode") == "gps-float":
         w, n = inp["width"], inp["raw"]
         step = 360 / 2**25 if w == 25 else 180 / 2**24
